@@ -472,6 +472,19 @@ func FixedCorpus() []*Unit {
 		for i, n := range names {
 			m.F(n, i+1, S(String))
 		}
+		// a message without fields of its own (a pure namespace) whose nested
+		// messages use the reserved names, two levels down as well
+		sc := f.Msg("Scope")
+		se := sc.Nested("Entry")
+		for i, n := range []string{"get", "range", "type", "descriptor", "new"} {
+			se.F(n, i+1, S(Int64))
+		}
+		so := se.Oneof("has")
+		se.O(so, "h1", 10, S(String))
+		se.O(so, "h2", 11, M("verif.names.Methods"))
+		sd := sc.Nested("Deeper").Nested("Leaf")
+		sd.R("set", 1, S(String))
+		sd.Map("clear", 2, Int32, M("verif.names.Scope.Entry"))
 		m = f.Msg("MethodsMixed")
 		m.R("get", 1, S(Int32))
 		m.Map("set", 2, String, S(String))
@@ -594,6 +607,101 @@ func FixedCorpus() []*Unit {
 	}
 
 	out = append(out, customOptsUnit())
+
+	// ---- svconly / extonly / emptyfile: files that declare no message and no enum
+	{
+		u, f := unit("svconly", "file that declares only a service (its messages come from an imported file of another Go package)")
+		f.P.Dependency = append(f.P.Dependency, "verif/impa.proto")
+		f.P.Service = append(f.P.Service, &descriptorpb.ServiceDescriptorProto{
+			Name: proto.String("Plotter"),
+			Method: []*descriptorpb.MethodDescriptorProto{
+				{Name: proto.String("Plot"), InputType: proto.String(".verif.impa.Point"), OutputType: proto.String(".verif.impa.Point")},
+				{Name: proto.String("Trace"), InputType: proto.String(".verif.impa.Point"), OutputType: proto.String(".verif.impa.Point"), ServerStreaming: proto.Bool(true)},
+			},
+		})
+		out = append(out, u)
+		// the same as a sibling file inside the Go package of samepkg (no Go type of its own)
+		fs := NewFile("verif/samepkg/q_service.proto", "verif.samepkg", GoRoot+"samepkg", "verif/samepkg/m_types.proto", "verif/samepkg/z_types.proto")
+		fs.P.Service = append(fs.P.Service, &descriptorpb.ServiceDescriptorProto{
+			Name:   proto.String("Q"),
+			Method: []*descriptorpb.MethodDescriptorProto{{Name: proto.String("Ask"), InputType: proto.String(".verif.samepkg.M"), OutputType: proto.String(".verif.samepkg.Z")}},
+		})
+		out = append(out, &Unit{Name: "samepkg_q", File: fs, Label: []string{"same Go package, a file that declares only a service"}})
+		ue, fe := unit("extonly", "file that declares only custom options (extensions), nothing else")
+		fe.P.Dependency = append(fe.P.Dependency, "google/protobuf/descriptor.proto")
+		fe.P.Extension = append(fe.P.Extension,
+			&descriptorpb.FieldDescriptorProto{Name: proto.String("only_note"), Number: proto.Int32(58001), Extendee: proto.String(".google.protobuf.MessageOptions"),
+				Label: descriptorpb.FieldDescriptorProto_LABEL_OPTIONAL.Enum(), Type: descriptorpb.FieldDescriptorProto_TYPE_STRING.Enum(), JsonName: proto.String("onlyNote")},
+			&descriptorpb.FieldDescriptorProto{Name: proto.String("only_rank"), Number: proto.Int32(58002), Extendee: proto.String(".google.protobuf.FieldOptions"),
+				Label: descriptorpb.FieldDescriptorProto_LABEL_OPTIONAL.Enum(), Type: descriptorpb.FieldDescriptorProto_TYPE_SINT64.Enum(), JsonName: proto.String("onlyRank")})
+		out = append(out, ue)
+		un, _ := unit("emptyfile", "file that declares nothing at all")
+		out = append(out, un)
+	}
+
+	// ---- nopkg: a file without a proto package, whose name has no directory and
+	// several dots; its types live in the root namespace
+	{
+		f := NewFile("verif.no.pkg.v1.proto", "", GoRoot+"nopkg")
+		f.P.Package = nil
+		f.Enum("NoPkgEnum", "NO_PKG_ENUM_ZERO", 0, "NO_PKG_ENUM_ONE", 1)
+		m := f.Msg("NoPkgOuter")
+		m.full = "NoPkgOuter"
+		m.F("id", 1, S(Uint64))
+		m.F("e", 2, E("NoPkgEnum"))
+		in := m.Nested("Inner")
+		in.F("s", 1, S(String))
+		m.R("inners", 3, M("NoPkgOuter.Inner"))
+		m.Map("by_key", 4, Sint32, M("NoPkgOuter.Inner"))
+		o := m.Oneof("which")
+		m.O(o, "a", 5, M("NoPkgOuter.Inner"))
+		m.O(o, "b", 6, E("NoPkgEnum"))
+		out = append(out, &Unit{Name: "nopkg", File: f, Label: []string{"file without a proto package; file name without directory and with several dots"}})
+	}
+
+	// ---- req: a proto3 schema embedding a proto2 message with REQUIRED fields
+	// (google.protobuf.UninterpretedOption.NamePart) directly, one level down, in
+	// a list, as a map value and in a oneof
+	{
+		u, f := unit("req", "proto2 message with required fields embedded in proto3 messages: singular, nested one level down, repeated, map value, oneof member")
+		f.P.Dependency = append(f.P.Dependency, "google/protobuf/descriptor.proto")
+		np := M("google.protobuf.UninterpretedOption.NamePart")
+		d := f.Msg("Direct")
+		d.F("part", 1, np)
+		d.F("note", 2, S(String))
+		mid := f.Msg("Mid")
+		mid.F("part", 1, np)
+		mid.R("parts", 2, np)
+		h := f.Msg("Holder")
+		h.F("mid", 1, M(mid.Full()))
+		h.R("mids", 2, M(mid.Full()))
+		k := f.Msg("Keyed")
+		k.Map("by_name", 1, String, np)
+		k.Map("mids", 2, Int32, M(mid.Full()))
+		o := k.Oneof("pick")
+		k.O(o, "one", 3, np)
+		k.O(o, "other", 4, S(Int64))
+		out = append(out, u)
+	}
+
+	// ---- longnames: identifiers far beyond 64 characters
+	{
+		u, f := unit("longnames", "message, nested message, enum and field names of 60-120 characters (derived Go identifiers exceed any fixed length)")
+		long := "QueryDelegatorValidatorsResponseWithAnExceptionallyLongMessageNameForTesting"
+		m := f.Msg(long)
+		m.F("max_change_rate_per_day_expressed_as_a_decimal_fraction_of_the_total_bonded_stake", 1, S(String))
+		n1 := m.Nested("ValidatorEntryNestedInsideTheLongMessageWithAnotherLongName")
+		n2 := n1.Nested("CommissionRatesNestedTwoLevelsDeepInsideTheLongNamedMessages")
+		n2.F("max_change_rate_per_day_expressed_as_a_decimal_fraction_again", 1, S(Double))
+		n2.Enum("AnEnumerationWithALongNameNestedThreeLevelsDeepInsideLongNames", "AN_ENUMERATION_VALUE_WITH_A_VERY_LONG_NAME_ZERO", 0, "AN_ENUMERATION_VALUE_WITH_A_VERY_LONG_NAME_ONE", 1)
+		n2.F("kind_of_the_commission_rate_as_an_enumeration_value_with_long_name", 2, E(n2.Full()+".AnEnumerationWithALongNameNestedThreeLevelsDeepInsideLongNames"))
+		n1.R("rates_as_a_repeated_field_with_a_long_name_for_good_measure_here", 1, M(n2.Full()))
+		m.Map("entries_by_validator_operator_address_in_bech32_format_long_name", 2, String, M(n1.Full()))
+		o := m.Oneof("a_oneof_with_a_remarkably_long_name_that_goes_on_and_on_for_a_while")
+		m.O(o, "first_member_of_the_long_named_oneof_holding_a_nested_message_value", 3, M(n2.Full()))
+		m.O(o, "second_member_of_the_long_named_oneof_holding_a_plain_scalar_value", 4, S(Sint64))
+		out = append(out, u)
+	}
 
 	// ---- oddnames: identifiers that are valid proto but unusual: lower-case and
 	// underscored type names, leading / trailing / doubled underscores and
